@@ -117,11 +117,6 @@ theorem C39_overlap (hash : Bytes → Nat) (wt : Bytes → Nat → Nat) (frameId
   have hqq := hallq _ (hash_mem_weighted hash wtNoIdf query t htq)
   exact overlaps_of_common hlen hlenq (filterSize_pos v) hd hqq
 
-deriving instance DecidableEq for Except
-
-instance (e : Entry) : Decidable e.InRange := by unfold Entry.InRange; infer_instance
-instance (t : Track) : Decidable t.InRange := by unfold Track.InRange; infer_instance
-
 /-! ## Clause 2 — write then read -/
 
 /-- the property as stated: every track (fields within their Rust types, distinct frame ids, as
@@ -157,46 +152,6 @@ theorem C39_track_normal_form (t : Track) (pre post : Bytes) (L : Nat) (hr : t.I
     readTrack (pre ++ writeTrack t ++ post) pre.length L = .ok (normalize t) :=
   read_write_normal t pre post L hr hL
 
-/-- an entry already has the shape the variant's on-disk entry can hold -/
-def Entry.Stored (v : Variant) (e : Entry) : Prop :=
-  match v with
-  | .small => e.termFilter.length = FS ∧ e.topTerms.length = TS ∧ e.termWeightSum = 0 ∧ e.flags = FLAGS_ALL ∧
-      e.lengthHint = 0
-  | _ => e.termFilter.length = FM ∧ e.topTerms.length = TM
-
-def CanonFrom (v : Variant) : Nat → List Entry → Prop
-  | _, [] => True
-  | i, e :: es => (e.frameId = i ∧ e.Stored v) ∧ CanonFrom v (i + 1) es
-
-/-- frame ids are exactly 0..n-1 in insertion order and every entry is in stored shape -/
-def Track.Canonical (t : Track) : Prop := CanonFrom t.variant 0 t.entries
-
-theorem normEntry_eq_iff (v : Variant) (i : Nat) (e : Entry) : normEntry v i e = e ↔ (e.frameId = i ∧ e.Stored v) := by
-  cases e with
-  | mk fid sh tf tt tws fl lh =>
-    cases v
-    · simp only [normEntry, Entry.Stored, Entry.mk.injEq, padTake_eq_self_iff, smallFilter_eq_self_iff, true_and]
-      constructor
-      · rintro ⟨h1, h2, h3, h4, h5, h6⟩; exact ⟨h1.symm, h2, h3, h4.symm, h5.symm, h6.symm⟩
-      · rintro ⟨h1, h2, h3, h4, h5, h6⟩; exact ⟨h1.symm, h2, h3, h4.symm, h5.symm, h6.symm⟩
-    · simp only [normEntry, Entry.Stored, Entry.mk.injEq, padTake_eq_self_iff, true_and, and_true]
-      constructor
-      · rintro ⟨h1, h2, h3⟩; exact ⟨h1.symm, h2, h3⟩
-      · rintro ⟨h1, h2, h3⟩; exact ⟨h1.symm, h2, h3⟩
-    · simp only [normEntry, Entry.Stored, Entry.mk.injEq, padTake_eq_self_iff, true_and, and_true]
-      constructor
-      · rintro ⟨h1, h2, h3⟩; exact ⟨h1.symm, h2, h3⟩
-      · rintro ⟨h1, h2, h3⟩; exact ⟨h1.symm, h2, h3⟩
-
-theorem normFrom_eq_iff (v : Variant) (i : Nat) (es : List Entry) : normFrom v i es = es ↔ CanonFrom v i es := by
-  induction es generalizing i with
-  | nil => simp [normFrom, CanonFrom]
-  | cons e es ih => simp only [normFrom, CanonFrom, List.cons.injEq, normEntry_eq_iff, ih]
-
-theorem normalize_eq_iff (t : Track) : normalize t = t ↔ t.Canonical := by
-  cases t with
-  | mk v es => simp [normalize, Track.Canonical, normFrom_eq_iff]
-
 /-- **C39_track_partial** — the round trip under its true precondition: a track whose frame ids are
     0..n-1 in insertion order and whose entries are in stored shape reads back identical. -/
 theorem C39_track_partial (t : Track) (pre post : Bytes) (hr : t.InRange) (hc : t.Canonical) :
@@ -218,35 +173,10 @@ def canonMedium : Track :=
              { frameId := 1, simhash := 7, termFilter := zeros 32, topTerms := [0, 0, 0, 0],
                termWeightSum := 0, flags := 0, lengthHint := 0 }]⟩
 
-instance (v : Variant) (e : Entry) : Decidable (e.Stored v) := by unfold Entry.Stored; cases v <;> infer_instance
-def decCanonFrom (v : Variant) : (i : Nat) → (es : List Entry) → Decidable (CanonFrom v i es)
-  | _, [] => isTrue trivial
-  | i, e :: es => by
-    have := decCanonFrom v (i + 1) es
-    unfold CanonFrom
-    infer_instance
-instance (v : Variant) (i : Nat) (es : List Entry) : Decidable (CanonFrom v i es) := decCanonFrom v i es
-instance (t : Track) : Decidable t.Canonical := by unfold Track.Canonical; infer_instance
-
 example : canonMedium.InRange ∧ canonMedium.Canonical := by decide
 set_option maxRecDepth 8000 in
 example : readTrack ([9, 9] ++ writeTrack canonMedium ++ [1]) 2 (writeTrack canonMedium).length = .ok canonMedium := by
   decide
-
-/-- filter bytes / top terms an on-disk entry of the variant holds -/
-def Variant.storedFilter : Variant → Nat
-  | .small => FS | _ => FM
-def Variant.storedTops : Variant → Nat
-  | .small => TS | _ => TM
-
-theorem normFrom_getElem? (v : Variant) (s : Nat) (es : List Entry) (i : Nat) :
-    (normFrom v s es)[i]? = (es[i]?).map (normEntry v (s + i)) := by
-  induction es generalizing s i with
-  | nil => simp [normFrom]
-  | cons e es ih =>
-    cases i with
-    | zero => simp [normFrom]
-    | succ i => simp only [normFrom, List.getElem?_cons_succ, ih]; congr 2; omega
 
 /-- **C39_track_positions** — what survives for EVERY track, position by position: the i-th entry written
     comes back as the i-th entry (under id i) with the same simhash, the same top terms up to zero
@@ -275,19 +205,6 @@ theorem C39_track_positions (t : Track) (pre post : Bytes) (L : Nat) (hr : t.InR
     intro hlen
     exact (padTake_eq_self_iff _ _ _).mpr hlen
 
-/-- `generate_sketch` output: filter of the variant's size (restated from C39_filter's proof) -/
-theorem generated_filter_length (hash : Bytes → Nat) (wt : Bytes → Nat → Nat) (frameId : Nat) (tokens : List Bytes)
-    (v : Variant) (e : Entry) (hg : generateSketch hash wt frameId tokens v = some e) :
-    e.termFilter.length = v.filterSize := by
-  unfold generateSketch at hg
-  split at hg
-  · cases hg; simp [Entry.new]
-  · obtain ⟨f, hb, hlen, _⟩ := bloom_no_fn ((computeTokenWeights hash wt tokens).map (·.1)) v.filterSize (filterSize_pos v)
-    simp only [hb] at hg
-    split at hg
-    · cases hg
-    · cases hg; exact hlen
-
 /-- **C39_roundtrip_keeps_filter** — in the Small and Medium variants the filter of a generated sketch is
     stored whole, so clause 1 still holds for the entry that is read back. -/
 theorem C39_roundtrip_keeps_filter (hash : Bytes → Nat) (wt : Bytes → Nat → Nat) (frameId i : Nat)
@@ -309,10 +226,6 @@ theorem C39_large_roundtrip_false_negative :
       maybeContains (normEntry .large 0 e).termFilter 300 = some false := by
   refine ⟨_, rfl, ?_, ?_⟩ <;> decide
 
-theorem wtNoIdf_pos (t : Bytes) (c : Nat) : 1 ≤ wtNoIdf t c := by
-  have h1 : WEIGHT_MIN = 1 := by decide
-  simp only [wtNoIdf, h1]; omega
-
 /-- **C39_small_generated_never_identical** — no sketch produced by `generate_sketch(.., Small, None)` is
     in stored shape: whatever the text, flags / weight sum differ after a write+read of a Small track
     (the variant `Memvid` always writes). -/
@@ -323,6 +236,7 @@ theorem C39_small_generated_never_identical (hash : Bytes → Nat) (frameId i : 
   unfold generateSketch at hg
   split at hg
   · cases hg
+    simp only at hf
     revert hf; decide
   · rename_i hne
     obtain ⟨f, hb, _, _⟩ := bloom_no_fn ((computeTokenWeights hash wtNoIdf tokens).map (·.1)) Variant.small.filterSize (filterSize_pos _)
@@ -353,5 +267,155 @@ theorem C39_small_generated_never_identical (hash : Bytes → Nat) (frameId i : 
             have hts : Variant.small.topTermsCount = 2 := by decide
             simp only [hts, List.take_succ_cons, List.map_cons, List.sum_cons] at hw
             omega
+
+theorem ofInserts_ids_nodup (v : Variant) (es : List Entry) :
+    ((Track.ofInserts v es).entries.map (·.frameId)).Nodup := by
+  unfold Track.ofInserts
+  have : ∀ (t : Track), (t.entries.map (·.frameId)).Nodup → ((es.foldl Track.insert t).entries.map (·.frameId)).Nodup := by
+    induction es with
+    | nil => intro t h; exact h
+    | cons e es ih => intro t h; exact ih _ (insert_nodup t e h)
+  exact this _ (by simp [Track.new])
+
+/-- even with dense frame ids the clause fails in the Small variant: a weight sum of 1 comes back as 0 -/
+def witnessSmallFields : Track :=
+  ⟨.small, [{ frameId := 0, simhash := 0, termFilter := zeros 16, topTerms := [0, 0], termWeightSum := 1,
+              flags := 7, lengthHint := 0 }]⟩
+
+/-- … and in the Medium variant for an entry with fewer than 4 top terms (zero padding) -/
+def witnessShape : Track :=
+  ⟨.medium, [{ frameId := 0, simhash := 0, termFilter := zeros 32, topTerms := [1, 2], termWeightSum := 0,
+               flags := 0, lengthHint := 0 }]⟩
+
+theorem C39_track_counterexample_small_fields :
+    witnessSmallFields.InRange ∧ witnessSmallFields.entries.map (·.frameId) = [0] ∧
+      readTrack (writeTrack witnessSmallFields) 0 (writeTrack witnessSmallFields).length ≠ .ok witnessSmallFields := by
+  decide
+
+set_option maxRecDepth 4000 in
+theorem C39_track_counterexample_shape :
+    witnessShape.InRange ∧ witnessShape.entries.map (·.frameId) = [0] ∧
+      readTrack (writeTrack witnessShape) 0 (writeTrack witnessShape).length ≠ .ok witnessShape := by
+  decide
+
+/-- **C39_weights_order_independent** — `compute_token_weights` is well defined although it iterates a
+    `HashMap`: ANY list that is sorted by its comparator and is a permutation of the (hash, weight) pairs
+    of the distinct tokens — i.e. whatever `sort_by` returns for whatever iteration order — is the
+    model's list. -/
+theorem C39_weights_order_independent (hash : Bytes → Nat) (wt : Bytes → Nat → Nat) (tokens : List Bytes)
+    (r : List (Nat × Nat)) (hs : SortedPairs r)
+    (hp : r.Perm ((dedup tokens).map fun t => (hash t, wt t (tokens.count t)))) :
+    r = computeTokenWeights hash wt tokens :=
+  sortPairs_unique _ r hs hp
+
+/-- clause 1 + candidate search still work on a Small/Medium entry that went through write+read -/
+theorem C39_overlap_after_reload (hash : Bytes → Nat) (wt : Bytes → Nat → Nat) (frameId i : Nat)
+    (doc query : List Bytes) (v : Variant) (hv : v ≠ .large) (e : Entry) (qf : Bytes) (t : Bytes)
+    (hg : generateSketch hash wt frameId doc v = some e) (hq : queryFilter hash query v = some qf)
+    (htd : t ∈ doc) (htq : t ∈ query) :
+    maybeContains (normEntry v i e).termFilter (hash t) = some true ∧
+      maybeOverlaps (normEntry v i e).termFilter qf = true := by
+  rw [C39_roundtrip_keeps_filter hash wt frameId i doc v hv e hg]
+  exact ⟨(C39_filter hash wt frameId doc v e hg).2 t htd, C39_overlap hash wt frameId doc query v e qf t hg hq htd htq⟩
+
+/-- `Memvid` always writes a Small track but `insert_sketch` accepts any variant: a Medium sketch stored
+    in a Small track keeps only its first 16 filter bytes and loses tokens (hash 200: bit 200 of 256 set,
+    bit 200 mod 128 = 72 tested). -/
+theorem C39_medium_in_small_track_false_negative :
+    ∃ e, generateSketch (fun _ => 200) wtNoIdf 0 [[97, 97]] .medium = some e ∧
+      maybeContains e.termFilter 200 = some true ∧
+      maybeContains (normEntry .small 0 e).termFilter 200 = some false := by
+  refine ⟨_, rfl, ?_, ?_⟩ <;> decide
+
+/-! ## The reader on arbitrary bytes (reported for C22; C39 itself only needs `C39_track_normal_form`) -/
+
+/-- **C39_reader_panic_iff** — `read_sketch_track` panics (debug profile: overflow checks on) exactly when
+    the header is well-formed and `entry_count * entry_size` does not fit a `u64`; it is always the
+    multiplication (`panicAdd` is unreachable), whatever `length` is passed. -/
+theorem C39_reader_panic_iff (file : Bytes) (offset length : Nat) :
+    (readTrack file offset length = .error .panicAdd ↔ False) ∧
+    (readTrack file offset length = .error .panicMul ↔
+      READER_CHECKED_ARITH = false ∧ HeaderOk file offset ∧
+        leVal (slice (slice file offset HDR) 8 8) * leVal (slice (slice file offset HDR) 6 2) ≥ 2 ^ 64) := by
+  unfold readTrack HeaderOk
+  simp only
+  split
+  · rename_i h
+    refine ⟨by simp, ?_⟩
+    have hl := slice_length_le file offset HDR
+    constructor
+    · intro h'; cases h'
+    · rintro ⟨_, ⟨h1, _⟩, _⟩; omega
+  · rename_i hlen
+    have hl := slice_length_le file offset HDR
+    have hlen' : (slice file offset HDR).length = HDR := by omega
+    split
+    · rename_i hm
+      refine ⟨by simp, ?_⟩
+      constructor
+      · intro h'; cases h'
+      · rintro ⟨_, ⟨_, h2, _⟩, _⟩; exact absurd h2 hm
+    · rename_i hm
+      have hm' : slice (slice file offset HDR) 0 4 = MAGIC := Classical.byContradiction hm
+      split
+      · rename_i hv
+        refine ⟨by simp, ?_⟩
+        constructor
+        · intro h'; cases h'
+        · rintro ⟨_, ⟨_, _, h3⟩, _⟩; rw [hv] at h3; cases h3
+      · rename_i v hv
+        have hes := ofEntrySize_some _ _ hv
+        rw [hes, expectedLength_valid]
+        by_cases hmul : leVal (slice (slice file offset HDR) 8 8) * v.entrySize ≥ 2 ^ 64
+        · rw [if_pos hmul]
+          cases hc : READER_CHECKED_ARITH
+          · simp only [Bool.false_eq_true, if_false]
+            refine ⟨by simp, ?_⟩
+            constructor
+            · intro _; exact ⟨trivial, ⟨hlen', hm', by rw [ofEntrySize_entrySize]; rfl⟩, hmul⟩
+            · intro _; trivial
+          · simp only [if_true]
+            refine ⟨by simp, ?_⟩
+            constructor
+            · intro h'; cases h'
+            · rintro ⟨h1, _⟩; cases h1
+        · rw [if_neg hmul]
+          simp only
+          split
+          · refine ⟨by simp, ?_⟩
+            constructor
+            · intro h'; cases h'
+            · rintro ⟨_, _, h3⟩; exact absurd h3 hmul
+          · split
+            · rename_i e he
+              have := readEntries_error _ _ _ _ _ he
+              subst this
+              refine ⟨by simp, ?_⟩
+              constructor
+              · intro h'; cases h'
+              · rintro ⟨_, _, h3⟩; exact absurd h3 hmul
+            · refine ⟨by simp, ?_⟩
+              constructor
+              · intro h'; cases h'
+              · rintro ⟨_, _, h3⟩; exact absurd h3 hmul
+
+/-- a 24-byte crafted header (`MVSK`, version 1, entry size 32, entry count 2^59) followed by anything -/
+def craftedHeader : Bytes :=
+  [0x4D, 0x56, 0x53, 0x4B, 1, 0, 32, 0, 0, 0, 0, 0, 0, 0, 0, 8, 0, 0, 0, 0, 0, 0, 0, 0]
+
+/-- **C39_reader_panic_witness** — on the current code (`READER_CHECKED_ARITH = false`) this header makes
+    the reader panic; with checked arithmetic it is rejected as an error. -/
+theorem C39_reader_panic_witness (rest : Bytes) (length : Nat) :
+    readTrack (craftedHeader ++ rest) 0 length =
+      .error (if READER_CHECKED_ARITH then .overflow else .panicMul) := by
+  have h : slice (craftedHeader ++ rest) 0 HDR = craftedHeader := by
+    rw [HDR_eq]; exact slice_append_here _ _ 24 (by decide)
+  have h1 : ¬ (craftedHeader.length < HDR) := by decide
+  have h2 : ¬ (slice craftedHeader 0 4 ≠ MAGIC) := by decide
+  have h3 : Variant.ofEntrySize (leVal (slice craftedHeader 6 2)) = some .small := by decide
+  have h4 : expectedLength (leVal (slice craftedHeader 8 8)) (leVal (slice craftedHeader 6 2)) =
+      .error (if READER_CHECKED_ARITH then .overflow else .panicMul) := by decide
+  unfold readTrack
+  simp only [h, h1, h2, h3, h4, if_false]
 
 end Mv.Sketch
